@@ -178,6 +178,9 @@ class SimFS:
                 raise OSError(errno.EIO, "Input/output error (simulated)", path)
             if kind == "EACCES":
                 raise PermissionError(errno.EACCES, "Permission denied (simulated)", path)
+            if kind == "ETIMEDOUT":
+                # what a network file system reports when the server does not answer (an OSError that IS a TimeoutError)
+                raise TimeoutError(errno.ETIMEDOUT, "Connection timed out (simulated)", path)
             if kind == "ENOSPC":
                 if opname in ("write", "flush", "close"):
                     return "ENOSPC"
